@@ -361,6 +361,22 @@ pub fn q_maker<'db>(db: &'db dyn Hdb, k: NodeKey) -> Vec<Ent<'db>> {
     body_maker(db, k)
 }
 
+#[salsa::tracked(lru = 1)]
+pub fn q_maker_lru<'db>(db: &'db dyn Hdb, k: NodeKey) -> Vec<Ent<'db>> {
+    body_maker(db, k)
+}
+
+/// The structs of maker node `n` (plain or lru-declared maker).
+pub fn maker_vec<'db>(db: &'db dyn Hdb, n: usize) -> &'db Vec<Ent<'db>> {
+    let ctx = db.ctx();
+    let k = ctx.keys.get().unwrap()[n];
+    if ctx.prog.nodes[n].lru_maker {
+        q_maker_lru(db, k)
+    } else {
+        q_maker(db, k)
+    }
+}
+
 #[salsa::tracked]
 pub fn q_on_ent<'db>(db: &'db dyn Hdb, e: Ent<'db>) -> V {
     body_ent(db, FnK::OnEnt, e)
@@ -578,7 +594,11 @@ fn body_maker<'db>(db: &'db dyn Hdb, k: NodeKey) -> Vec<Ent<'db>> {
             n as u32,
             out.len() as u32,
         ));
-        if let Some(se) = &mk.specify {
+        let spec_on = match &mk.spec_when {
+            Some(w) if mk.specify.is_some() => eval(db, w, &cx) != 0,
+            _ => true,
+        };
+        if let (Some(se), true) = (&mk.specify, spec_on) {
             if mk.pre_read {
                 let r = q_spec(db, ent).v;
                 ctx.log.push(Rec::Read(
@@ -610,7 +630,7 @@ pub fn call_node<'db>(db: &'db dyn Hdb, n: usize, arg: u16) -> u16 {
         Kind::NoEq => q_noeq(db, k).v,
         Kind::Lru => q_lru(db, k).v,
         Kind::Multi => q_multi(db, k, arg).v,
-        Kind::Maker => q_maker(db, k).len() as u16,
+        Kind::Maker => maker_vec(db, n).len() as u16,
         Kind::Fix => q_fix(db, k).v,
         Kind::FixJ => q_fixj(db, k).v,
         Kind::Fb => q_fb(db, k).v,
@@ -631,8 +651,7 @@ pub fn fnk_of(kind: Kind) -> FnK {
 }
 
 pub fn ent_of<'db>(db: &'db dyn Hdb, m: usize, i: usize) -> Option<Ent<'db>> {
-    let k = db.ctx().keys.get().unwrap()[m];
-    q_maker(db, k).get(i).copied()
+    maker_vec(db, m).get(i).copied()
 }
 
 pub fn ent_field<'db>(db: &'db dyn Hdb, e: Ent<'db>, f: Fld) -> u16 {
